@@ -161,11 +161,11 @@ theorem IoMap.get_remove {m : IoMap} {k x : Nat} :
 theorem IoMap.get_insert {m : IoMap} {k v x : Nat} :
     (m.insert k v).get x = if x = k then some v else m.get x := by
   by_cases hx : x = k
-  · simp [IoMap.insert, IoMap.get, List.find?_cons, hx]
+  · simp [IoMap.insert, IoMap.get, hx]
   · have h1 : (k == x) = false := by simp; exact fun h => hx h.symm
     have := @IoMap.get_remove m k x
     simp only [IoMap.get] at this
-    simp [IoMap.insert, IoMap.get, List.find?_cons, h1, hx, this]
+    simp [IoMap.insert, IoMap.get, h1, hx, this]
 
 theorem IoMap.mem_keys_foldl_remove (ids : List Nat) (m : IoMap) (x : Nat) :
     x ∈ (ids.foldl IoMap.remove m).keys ↔ x ∈ m.keys ∧ x ∉ ids := by
@@ -240,7 +240,7 @@ theorem Tracker.get_foldl_removeConnection (ids : List Nat) (t : Tracker) (seq n
 /-- A freshly inserted sequence number is attributed to the inserting link while it is young. -/
 theorem Tracker.get_insert_self (t : Tracker) (seq id ts now : Nat) (hid : id ≠ 0)
     (hage : now - ts ≤ 5000) : (t.insert seq id ts).get seq now = some id := by
-  simp [Tracker.get, Tracker.insert, List.find?_cons, TrackEntry.isValid, hid, Nat.not_lt.2 hage]
+  simp [Tracker.get, Tracker.insert, TrackEntry.isValid, hid, Nat.not_lt.2 hage]
 
 /-! ## `dedupSeen` -/
 
@@ -285,7 +285,7 @@ theorem dedupSeen_sublist (seen l : List Ip) : (dedupSeen seen l).Sublist l := b
     unfold dedupSeen
     split
     · exact List.Sublist.cons _ (ih seen)
-    · exact List.Sublist.cons₂ _ (ih _)
+    · exact List.Sublist.cons_cons _ (ih _)
 
 /-! ## `create_connections_from_ips` -/
 
@@ -332,8 +332,8 @@ theorem createConnections_spec (mk : Ip → Label) (ips : List Ip) (outs : List 
         | cons o os => cases o <;> simp_all
       refine ⟨?_, ?_, ?_, ?_, ?_, ?_⟩
       · rw [houts, okIds_cons_some, List.map_cons]
-        exact List.Sublist.cons₂ _ h1
-      · rw [List.map_cons]; exact List.Sublist.cons₂ _ h2
+        exact List.Sublist.cons_cons _ h1
+      · rw [List.map_cons]; exact List.Sublist.cons_cons _ h2
       · intro l hl
         rcases List.mem_cons.1 hl with rfl | hl
         · rfl
@@ -369,6 +369,28 @@ theorem createConnections_all_ok (mk : Ip → Label) (ips : List Ip) (cs : List 
       simp [createConnections, this.1, this.2]
 
 /-! ## `apply_connection_changes` in closed form -/
+
+theorem mem_removedIds (mk : Ip → Label) (s : Sys) (newIps : List Ip) (id : Nat) :
+    id ∈ removedIds mk s newIps ↔ ∃ l, l ∈ s.links ∧ l.label ∉ newIps.map mk ∧ l.connId = id := by
+  unfold removedIds desiredLabels
+  rw [List.mem_map]
+  constructor
+  · rintro ⟨l, hl, rfl⟩
+    rw [List.mem_filter] at hl
+    refine ⟨l, hl.1, ?_, rfl⟩
+    have := hl.2
+    rw [List.contains_eq_mem] at this
+    simpa using this
+  · rintro ⟨l, hl, hno, rfl⟩
+    refine ⟨l, List.mem_filter.2 ⟨hl, ?_⟩, rfl⟩
+    rw [List.contains_eq_mem]
+    simpa using hno
+
+theorem mem_retained (mk : Ip → Label) (s : Sys) (newIps : List Ip) (l : Link) :
+    l ∈ retained mk s newIps ↔ l ∈ s.links ∧ l.label ∈ newIps.map mk := by
+  unfold retained desiredLabels
+  rw [List.mem_filter, List.contains_eq_mem]
+  simp only [decide_eq_true_eq]
 
 theorem removedIds_eq_nil_iff (mk : Ip → Label) (s : Sys) (newIps : List Ip) :
     removedIds mk s newIps = [] ↔ ∀ l ∈ s.links, l.label ∈ newIps.map mk := by
@@ -446,5 +468,114 @@ theorem map_label_setState (links : List Link) (idx tok : Nat) :
     cases idx with
     | zero => rfl
     | succ i => simp [setState, ih]
+
+/-! ## Survivors across a whole run -/
+
+/-- What never changes about a link, whatever protocol activity happens on it. -/
+def Link.key (l : Link) : Nat × Ip × Label := (l.connId, l.ip, l.label)
+
+/-- The `conn_id`s drawn by one step / by a run. -/
+def opDrawn : Op → List Nat
+  | .tick outs => okIds outs
+  | _ => []
+
+def drawn : List Op → List Nat
+  | [] => []
+  | op :: ops => opDrawn op ++ drawn ops
+
+def Op.isMutate : Op → Bool
+  | .mutate _ _ => true
+  | _ => false
+
+theorem map_setState_of_inv {β : Type} (f : Link → β) (hf : ∀ l tok, f { l with state := tok } = f l)
+    (links : List Link) (idx tok : Nat) : (setState links idx tok).map f = links.map f := by
+  induction links generalizing idx with
+  | nil => rfl
+  | cons l ls ih =>
+    cases idx with
+    | zero => simp [setState, hf]
+    | succ i => simp [setState, ih]
+
+theorem setState_append (a b : List Link) (idx tok : Nat) :
+    setState (a ++ b) idx tok =
+      if idx < a.length then setState a idx tok ++ b else a ++ setState b (idx - a.length) tok := by
+  induction a generalizing idx with
+  | nil => simp
+  | cons x xs ih =>
+    cases idx with
+    | zero => simp [setState]
+    | succ i =>
+      simp only [List.cons_append, setState, ih, List.length_cons, Nat.add_lt_add_iff_right,
+        Nat.add_sub_add_right]
+      split <;> rfl
+
+/-- `links` = (old links that are still there, in their old order) ++ (links created since, all
+carrying ids from `D`); `f` is the view of a link that is compared with the old list `K`. -/
+def Split {β : Type} (f : Link → β) (K : List β) (D : List Nat) (links : List Link) : Prop :=
+  ∃ pre post, links = pre ++ post ∧ (pre.map f).Sublist K ∧ ∀ l ∈ post, l.connId ∈ D
+
+theorem split_mono {β : Type} {f : Link → β} {K : List β} {D D' : List Nat} {links : List Link}
+    (h : Split f K D links) (hD : ∀ x ∈ D, x ∈ D') : Split f K D' links := by
+  obtain ⟨pre, post, h1, h2, h3⟩ := h
+  exact ⟨pre, post, h1, h2, fun l hl => hD _ (h3 l hl)⟩
+
+theorem split_step {β : Type} (f : Link → β) (K : List β) (D : List Nat) (mk : Ip → Label) (s : Sys)
+    (op : Op) (hop : (∀ l tok, f { l with state := tok } = f l) ∨ op.isMutate = false)
+    (h : Split f K D s.links) : Split f K (D ++ opDrawn op) (step mk s op).links := by
+  have hmono : Split f K (D ++ opDrawn op) s.links := split_mono h (fun x hx => List.mem_append_left _ hx)
+  cases op with
+  | sighup file =>
+    simp only [step]; split <;> exact hmono
+  | track seq id ts => exact hmono
+  | select v => exact hmono
+  | tick outs =>
+    simp only [step]
+    split
+    · rename_i ips hp
+      obtain ⟨pre, post, h1, h2, h3⟩ := h
+      rw [applyChanges_eq]
+      have hc1 := fun needed io => (createConnections_spec mk needed outs io).1
+      simp only [retained, h1, List.filter_append, List.append_assoc]
+      refine ⟨_, _, rfl, ?_, ?_⟩
+      · exact (List.Sublist.map f List.filter_sublist).trans h2
+      · intro l hl
+        rcases List.mem_append.1 hl with hl | hl
+        · exact List.mem_append_left _ (h3 l (List.mem_filter.1 hl).1)
+        · exact List.mem_append_right _ ((hc1 _ _).subset (List.mem_map.2 ⟨l, hl, rfl⟩))
+    · exact hmono
+  | mutate idx tok =>
+    rcases hop with hf | hno
+    · obtain ⟨pre, post, h1, h2, h3⟩ := hmono
+      simp only [step, h1, setState_append]
+      split
+      · exact ⟨_, _, rfl, by rw [map_setState_of_inv f hf]; exact h2, h3⟩
+      · refine ⟨_, _, rfl, h2, ?_⟩
+        intro l hl
+        have : l.connId ∈ (setState post (idx - pre.length) tok).map (·.connId) :=
+          List.mem_map.2 ⟨l, hl, rfl⟩
+        rw [map_connId_setState] at this
+        obtain ⟨l0, hl0, he⟩ := List.mem_map.1 this
+        exact he ▸ h3 l0 hl0
+    · simp [Op.isMutate] at hno
+
+theorem split_run {β : Type} (f : Link → β) (K : List β) (mk : Ip → Label) (ops : List Op) (s : Sys)
+    (D : List Nat)
+    (hop : (∀ l tok, f { l with state := tok } = f l) ∨ ∀ op ∈ ops, op.isMutate = false)
+    (h : Split f K D s.links) : Split f K (D ++ drawn ops) (run mk s ops).links := by
+  induction ops generalizing s D with
+  | nil => simpa [drawn, Srtla.Reload.run] using h
+  | cons op ops ih =>
+    have hop1 : (∀ l tok, f { l with state := tok } = f l) ∨ op.isMutate = false :=
+      hop.imp id (fun hh => hh op (List.mem_cons_self ..))
+    have hop2 : (∀ l tok, f { l with state := tok } = f l) ∨ ∀ op ∈ ops, op.isMutate = false :=
+      hop.imp id (fun hh o ho => hh o (List.mem_cons_of_mem _ ho))
+    have := ih (step mk s op) (D ++ opDrawn op) hop2 (split_step f K D mk s op hop1 h)
+    simpa [drawn, Srtla.Reload.run, List.append_assoc] using this
+
+/-! ## Labels stay unique when the label function is injective -/
+
+theorem mkLabel_injective (host : String) (port : Nat) : Function.Injective (mkLabel host port) := by
+  intro a b h
+  exact (String.append_right_inj _).1 h
 
 end Srtla.Reload
